@@ -101,6 +101,20 @@ def find_body_open(m: str, i: int, stop=None) -> int:
     raise ValueError('no body found from %d' % i)
 
 
+def find_decl_end(m: str, i: int) -> int:
+    """index of the ';' at bracket depth 0 that ends a body-less declaration starting at i"""
+    depth = 0
+    for j in range(i, len(m)):
+        ch = m[j]
+        if ch in '([{':
+            depth += 1
+        elif ch in ')]}':
+            depth -= 1
+        elif ch == ';' and depth == 0:
+            return j
+    raise ValueError('no terminating ; from %d' % i)
+
+
 def line_of(src: str, off: int) -> int:
     return src.count('\n', 0, off) + 1
 
@@ -123,7 +137,7 @@ def find_item(m: str, header_re: str, lo=0, hi=None, nth=1):
     start = lo + mt.start()
     bo = find_body_open(m, lo + mt.end() - 1 if m[lo + mt.end() - 1] == '{' else lo + mt.end(), hi)
     if bo < 0:
-        semi = m.index(';', lo + mt.end())
+        semi = find_decl_end(m, lo + mt.end())
         return Span(start, -1, -1, semi + 1)
     bc = match_close(m, bo)
     return Span(start, bo, bc, bc + 1)
@@ -142,7 +156,7 @@ def find_fn(m: str, name: str, lo=0, hi=None):
     start = lo + mt.start(1)
     bo = find_body_open(m, lo + mt.end(), hi)
     if bo < 0:
-        semi = m.index(';', lo + mt.end())
+        semi = find_decl_end(m, lo + mt.end())
         return Span(start, -1, -1, semi + 1)
     bc = match_close(m, bo)
     return Span(start, bo, bc, bc + 1)
